@@ -375,6 +375,9 @@ PROPS["C18"] = {
     "rule": ("a case = one generated sequence / stream / status / delivery order; non-trivial: (a) a sequence of >=2 messages or a payload > 1 KiB, a structured hostile stream; (b) a status differing in exactly one field; (c) a forged variant processed before the genuine block. Distinct by full description."),
     "assumptions": ["bufio.Reader default buffer (4 KiB) is part of the allocation slack"],
     "units": [
+        {"pkg": "p2p/subproto", "run": "^TestC18HandlerAllocation$", "links": {"../test": "p2p/test"},
+         "quick": {"checks": 150, "shards": 2, "timeout": 600},
+         "thorough": {"checks": 1500, "shards": 4, "timeout": 1500}},
         {"pkg": "p2p/v030", "links": {"../test": "p2p/test"}, "run": "^TestC18Framing$", "quick": {"checks": 1500, "shards": 3, "timeout": 600}, "thorough": {"checks": 40000, "shards": 6, "timeout": 1500}},
         {"pkg": "p2p/v030", "links": {"../test": "p2p/test"}, "run": "^TestC18ReadBounded$", "quick": {"checks": 3000, "shards": 2, "timeout": 600}, "thorough": {"checks": 60000, "shards": 4, "timeout": 1500}},
         {"pkg": "p2p/v200", "links": {"../test": "p2p/test"}, "run": "^TestC18Handshake$", "quick": {"checks": 1500, "shards": 3, "timeout": 600}, "thorough": {"checks": 40000, "shards": 6, "timeout": 1500}},
